@@ -31,14 +31,14 @@ def configs(tier):
         for integ in (('explicit', 'rk2_heun') if q else ('explicit', 'rk2_heun', 'rk3ssp')):
             c = {'scheme': 'o1', 'model': 'convection', 'speed': sp, 'n': 4, 'integrator': integ, 'mesh': 'faces'}
             if integ == 'rk3ssp':
-                c.update(timeout_ms=900000, budget_s=7000)
+                c.update(timeout_ms=600000, budget_s=1800)
             out.append(c)
         for lim in cm.LIMITERS + ['abstract']:
             c = {'scheme': 'muscl', 'limiter': lim, 'model': 'convection', 'speed': sp, 'n': 5, 'integrator': 'explicit', 'mesh': 'uniform'}
             if lim in ('vanleer', 'vanalbada'):
                 # inline smooth limiters: bounded bug hunting in the quick tier (the abstract-limiter configuration carries the proof)
                 c['timeout_ms'] = 8000 if q else 600000
-                c['budget_s'] = 280 if q else 7000
+                c['budget_s'] = 280 if q else 1500
             out.append(c)
     # burgers: the python branches of numflux (3 outcomes per face, the exact tie included) are explored; the 81 paths are
     # distributed over 9 configurations by the decisions taken at the first two faces
@@ -49,7 +49,7 @@ def configs(tier):
                     'no_feasibility': True, 'path_prefix': pre, 'timeout_ms': 10000 if q else 120000})
         for lim in (['minmod', 'abstract'] if q else cm.LIMITERS + ['abstract']):
             out.append({'scheme': 'muscl', 'limiter': lim, 'model': 'burgers', 'n': 4, 'integrator': 'explicit', 'mesh': 'uniform', 'explore': True,
-                        'no_feasibility': True, 'path_prefix': pre, 'budget_s': 280 if q else 4000, 'timeout_ms': 10000 if q else 120000})
+                        'no_feasibility': True, 'path_prefix': pre, 'budget_s': 280 if q else 1200, 'timeout_ms': 10000 if q else 120000})
     return out
 
 
